@@ -109,7 +109,7 @@ func callables() []callable {
 
 var compiledFn ugo.Object
 
-func poolSize() int { return 28 }
+func poolSize() int { return 29 }
 
 // arg builds a fresh i-th pool value (callees may mutate their arguments).
 func arg(i int) ugo.Object {
@@ -176,6 +176,9 @@ func arg(i int) ugo.Object {
 	case 27:
 		// a callable that is not a compiled function (callbacks are usually given script functions)
 		return ugo.BuiltinObjects[ugo.BuiltinLen]
+	case 28:
+		// a JSON document whose last string ends in an escaped, unpaired surrogate (decoders look ahead for its pair)
+		return ugo.String(`["x","\ud83d"]`)
 	}
 	panic("pool")
 }
